@@ -39,6 +39,18 @@ CHECKS = {
              "FileSaver._save_chunk, strax.save_file); pre-emption at synchronisation points; capacity above the lag.",
         technique="fault injection at enumerated positions x schedule fuzzing (controlled scheduler), history oracle",
     ),
+    "C09": dict(
+        category="exploration",
+        text="Generated disjoint inputs x chunkings (many chunks shorter than the window, empty / zero-duration "
+             "chunks) x symmetric / asymmetric windows x per-row and per-group window-local computations x single / "
+             "multi output, through a real Context with both processors and by driving Plugin.iter directly; oracle = "
+             "the same computation applied once to the whole run, bit-exact, plus contiguity and mutual alignment of "
+             "output chunks.",
+        design_ref="DESIGN.md §5 C09",
+        note="Computations are local within the declared window (documented contract); a 20% 'margin' regime uses "
+             "locality up to the implementation's 2*window validity margin to detect narrowed margins.",
+        technique="property-based testing (Hypothesis), metamorphic whole-run vs chunked oracle",
+    ),
     "C13": dict(
         category="exploration",
         text="Consumer parked after k chunks, all other threads run under the controlled scheduler to quiescence; "
